@@ -14,9 +14,19 @@ out=$(work/bin/srcgen -repo $R/harness/srcgen-selftest -spec harness/srcgen-self
 (cd harness/srcgen-selftest && go run . $seed) > $d/SelftestCases.v || { echo "srcgen selftest: go run failed"; echo '{"ok":false,"why":"go run failed"}' > work/srcgen_selftest.json; exit 1; }
 n=$(grep -c '^Example' $d/SelftestCases.v)
 [ -f coq/theories/Common/GoList.vo ] || (cd coq && coqc -Q theories Sdns theories/Common/Base.v && coqc -Q theories Sdns theories/Common/GoList.v)
+# stage 2: repository functions with their third-party callees, and the library functions GoList.v models
+# for ASCII input (dns.IsFqdn/Fqdn/CanonicalName, strings.ToLower/IndexByte/Contains/Trim*/EqualFold)
+REPO=${VERIF_REPO:-/repo}
+work/bin/srcgen -repo $REPO -spec harness/srcgen-selftest/repo_spec.json -out $R/$d/Gen/SelftestRepo.v > $d/log2 2>&1 || { echo "srcgen selftest: translation of repository functions failed: $(tail -1 $d/log2)"; echo '{"ok":false,"why":"repo translation failed"}' > work/srcgen_selftest.json; exit 1; }
+printf '{"Replace":{"%s/internal/dnsname/zz_verif_srcgen_selftest_test.go":"%s/harness/overlay/internal/dnsname/zz_verif_srcgen_selftest_test.go"}}' $REPO $R > $d/overlay.json
+(cd $REPO && go test -c -vet=off -tags verif -overlay $R/$d/overlay.json -o $R/$d/selftest_repo.test ./internal/dnsname) > $d/log3 2>&1 || { echo "srcgen selftest: repo driver build failed: $(tail -2 $d/log3)"; echo '{"ok":false,"why":"repo driver build failed"}' > work/srcgen_selftest.json; exit 1; }
+VERIF_OUT=$R/$d/body.v VERIF_SEED=$seed $d/selftest_repo.test -test.run '^TestVerifSrcgenSelftest$' > $d/log4 2>&1 || { echo "srcgen selftest: repo driver failed"; echo '{"ok":false,"why":"repo driver failed"}' > work/srcgen_selftest.json; exit 1; }
+{ echo 'From Sdns Require Import Common.Base Common.GoList Gen.SelftestRepo.'; echo 'Open Scope Z_scope.'; cat $d/body.v; } > $d/SelftestRepoCases.v
+m=$(grep -c '^Example' $d/SelftestRepoCases.v)
 cd $d
-if timeout 600 coqc -Q $R/coq/theories Sdns -Q . Sdns Gen/Selftest.v > log 2>&1 && timeout 900 coqc -Q $R/coq/theories Sdns -Q . Sdns SelftestCases.v >> log 2>&1; then
-  echo "srcgen selftest: $n cases agree (seed $seed)"; echo "{\"ok\":true,\"cases\":$n,\"seed\":$seed}" > $R/work/srcgen_selftest.json; exit 0
+if timeout 600 coqc -Q $R/coq/theories Sdns -Q . Sdns Gen/Selftest.v > log 2>&1 && timeout 900 coqc -Q $R/coq/theories Sdns -Q . Sdns SelftestCases.v >> log 2>&1 \
+   && timeout 600 coqc -Q $R/coq/theories Sdns -Q . Sdns Gen/SelftestRepo.v >> log 2>&1 && timeout 900 coqc -Q $R/coq/theories Sdns -Q . Sdns SelftestRepoCases.v >> log 2>&1; then
+  echo "srcgen selftest: $n + $m cases agree (seed $seed)"; echo "{\"ok\":true,\"cases\":$((n+m)),\"fx_cases\":$n,\"repo_and_library_cases\":$m,\"seed\":$seed}" > $R/work/srcgen_selftest.json; exit 0
 fi
 echo "srcgen selftest: MISMATCH between Go and the translation"; head -5 log
-echo "{\"ok\":false,\"cases\":$n,\"seed\":$seed,\"why\":\"coqc rejected an Example\"}" > $R/work/srcgen_selftest.json; exit 1
+echo "{\"ok\":false,\"cases\":$((n+m)),\"seed\":$seed,\"why\":\"coqc rejected an Example\"}" > $R/work/srcgen_selftest.json; exit 1
